@@ -395,6 +395,11 @@ func (m *mitm) split(f []byte) (hdr int, body []byte) {
 // stalls or swallows what follows, which must not depend on a random length.
 func (m *mitm) amount(bodyLen, idx int) int {
 	det := !m.ed.varLen || (m.framing == frTLS && idx == 0) // ClientHello / ServerHello have a fixed layout
+	if det && m.framing == frTLS && m.ed.dir == 1 {
+		// ServerHello is followed by more records: what a raw truncation removes is refilled from them. Staying inside
+		// the trailing key-share bytes keeps the message's structure intact whatever the refill contains.
+		return 1 + m.ed.k%32
+	}
 	if det {
 		return 1 + m.ed.k%bodyLen
 	}
@@ -485,7 +490,7 @@ func (m *mitm) apply(f []byte, idx int) ([]byte, string) {
 // which byte is hit must not decide the shape of the run, otherwise runs would not replay. The
 // position draw therefore selects header or body first; body bytes (AEAD ciphertext, or the fixed
 // layout of ClientHello/ServerHello) are XORed at offset draw%bodyLen; the length field is changed
-// by +-1..3, +256 or halved instead of XORed (an XOR would make the record longer or shorter depending on
+// by +-1..3, +256 or halved (ClientHello / ServerHello: cut down to the handshake header) instead of XORed (an XOR would make the record longer or shorter depending on
 // the random length). TLS: the two legacy-version bytes of the first record of each direction are
 // excluded — crypto/tls accepts any value below 0x1000 there before a version is negotiated, TLS 1.3
 // leaves them unauthenticated (RFC 8446 5.1), so changing them is not an alteration of handshake data.
@@ -522,6 +527,12 @@ func (m *mitm) flip(f []byte, idx int) ([]byte, string) {
 			nl = cur + 256
 		default:
 			nl = cur / 2
+		}
+		if m.framing == frTLS && idx == 0 && nl < cur {
+			// ClientHello / ServerHello travel in the clear: after a shortened record the receiver parses the left-over
+			// bytes as the next record header. Keeping exactly the 4-byte handshake header makes the left-over start
+			// with the fixed legacy_version bytes (an invalid record type) instead of random key-share bytes.
+			nl = 4
 		}
 		if nl < 0 {
 			nl = 0
